@@ -36,6 +36,9 @@ def units():
                                   "invariants": "0 <= k && k <= bufsize - 1 && 0 <= psf->header.indx && psf->header.indx <= 102400 && psf->header.indx + (bufsize - 1 - k) < psf->header.len "
                                                 "&& 0 <= psf->header.end && psf->header.end <= psf->header.len",
                                   "decreases": "bufsize - k"}]}),
+        {"name": "common.psf_default_seek", "props": ["C06", "C08", "C09", "C15"], "harness": "default_seek.harness.c", "entry": "h_default_seek",
+         "enforce": "psf_default_seek", "function": "common.c:psf_default_seek", "replace": ["psf_fseek"], "timeout": 600, "backend": "kissat",
+         "trusted": ["psf_fseek: any result (ghost record of the position asked for)"]},
     ]
 
 
